@@ -154,7 +154,7 @@ class CovarianceMatrix(object):
                 subap_nj = 0
                 # Only loop over upper diagonal of covariance matrix as its symmetrical
                 for wfs_j in range(wfs_i+1):
-                    cov_xx, cov_yy, cov_xy = wfs_covariance(
+                    cov_xx, cov_yy, cov_xy, cov_yx = wfs_covariance(
                             self.n_subaps[wfs_i], self.n_subaps[wfs_j],
                             self.subap_layer_positions[layer_n][wfs_i], self.subap_layer_positions[layer_n][wfs_j],
                             self.subap_layer_diameters[layer_n][wfs_i], self.subap_layer_diameters[layer_n][wfs_j],
@@ -180,7 +180,7 @@ class CovarianceMatrix(object):
                             ] += cov_xx * r0_scale
                     self.covariance_matrix[
                             cov_mat_coord_x1 + self.n_subaps[wfs_i]: cov_mat_coord_x2 + self.n_subaps[wfs_i],
-                            cov_mat_coord_y1: cov_mat_coord_y2] += cov_xy * r0_scale
+                            cov_mat_coord_y1: cov_mat_coord_y2] += cov_yx * r0_scale
                     self.covariance_matrix[
                             cov_mat_coord_x1: cov_mat_coord_x2,
                             cov_mat_coord_y1 + self.n_subaps[wfs_j]: cov_mat_coord_y2 + self.n_subaps[wfs_j]
@@ -213,7 +213,7 @@ class CovarianceMatrix(object):
             thread_n = 0
             for wfs_i in range(self.n_wfs):
                 for wfs_j in range(wfs_i+1):
-                    cov_xx, cov_yy, cov_xy = self.cov_mats[thread_n]
+                    cov_xx, cov_yy, cov_xy, cov_yx = self.cov_mats[thread_n]
 
                     subap_ni = self.n_subaps[:wfs_i].sum()
                     subap_nj = self.n_subaps[:wfs_j].sum()
@@ -235,7 +235,7 @@ class CovarianceMatrix(object):
                             ] += cov_xx * r0_scale
                     self.covariance_matrix[
                             cov_mat_coord_x1 + self.n_subaps[wfs_i]: cov_mat_coord_x2 + self.n_subaps[wfs_i],
-                            cov_mat_coord_y1: cov_mat_coord_y2] += cov_xy * r0_scale
+                            cov_mat_coord_y1: cov_mat_coord_y2] += cov_yx * r0_scale
                     self.covariance_matrix[
                             cov_mat_coord_x1: cov_mat_coord_x2,
                             cov_mat_coord_y1 + self.n_subaps[wfs_j]: cov_mat_coord_y2 + self.n_subaps[wfs_j]
@@ -286,7 +286,8 @@ def wfs_covariance(n_subaps1, n_subaps2, wfs1_positions, wfs2_positions, wfs1_di
         L0: Outer scale of turbulence
 
     Returns:
-        slope covariance of X with X , slope covariance of Y with Y, slope covariance of X with Y
+        slope covariance of X with X , slope covariance of Y with Y, slope covariance of X with Y,
+        slope covariance of Y with X
     """
 
     xy_seperations = calculate_wfs_seperations(n_subaps1, n_subaps2, wfs1_positions, wfs2_positions)
@@ -295,9 +296,10 @@ def wfs_covariance(n_subaps1, n_subaps2, wfs1_positions, wfs2_positions, wfs1_di
     cov_xx = compute_covariance_xx(xy_seperations, wfs1_diam, wfs2_diam, r0, L0)
     cov_yy = compute_covariance_yy(xy_seperations, wfs1_diam, wfs2_diam, r0, L0)
     cov_xy = compute_covariance_xy(xy_seperations, wfs1_diam, wfs2_diam, r0, L0)
+    # Y slopes of WFS 1 with X slopes of WFS 2 (differs from cov_xy when the diameters differ)
+    cov_yx = compute_covariance_xy(-xy_seperations, wfs2_diam, wfs1_diam, r0, L0)
 
-
-    return cov_xx, cov_yy, cov_xy
+    return cov_xx, cov_yy, cov_xy, cov_yx
 
 
 def calculate_wfs_seperations(n_subaps1, n_subaps2, wfs1_positions, wfs2_positions):
@@ -333,13 +335,17 @@ def compute_covariance_xx(seperation, subap1_diam, subap2_diam, r0, L0):
     x1 = seperation[..., 0] + (subap2_diam - subap1_diam) * 0.5
     r1 = numpy.sqrt(x1**2 + seperation[..., 1]**2)
 
+    x1b = seperation[..., 0] - (subap2_diam - subap1_diam) * 0.5
+    r1b = numpy.sqrt(x1b**2 + seperation[..., 1]**2)
+
     x2 = seperation[..., 0] - (subap2_diam + subap1_diam) * 0.5
     r2 = numpy.sqrt(x2**2 + seperation[..., 1]**2)
 
     x3 = seperation[..., 0] + (subap2_diam + subap1_diam) * 0.5
     r3 = numpy.sqrt(x3**2 + seperation[..., 1]**2)
 
-    Cxx = (-2 * structure_function_vk(r1, r0, L0)
+    Cxx = (- structure_function_vk(r1, r0, L0)
+            - structure_function_vk(r1b, r0, L0)
             + structure_function_vk(r2, r0, L0)
             + structure_function_vk(r3, r0, L0)
            )
@@ -352,13 +358,17 @@ def compute_covariance_yy(seperation, subap1_diam, subap2_diam, r0, L0):
     y1 = seperation[..., 1] + (subap2_diam - subap1_diam) * 0.5
     r1 = numpy.sqrt(seperation[..., 0]**2 + y1**2)
 
+    y1b = seperation[..., 1] - (subap2_diam - subap1_diam) * 0.5
+    r1b = numpy.sqrt(seperation[..., 0]**2 + y1b**2)
+
     y2 = seperation[..., 1] - (subap2_diam + subap1_diam) * 0.5
     r2 = numpy.sqrt(seperation[..., 0]**2 + y2**2)
 
     y3 = seperation[..., 1] + (subap2_diam + subap1_diam) * 0.5
     r3 = numpy.sqrt(seperation[..., 0]**2 + y3**2)
 
-    Cyy = (-2 * structure_function_vk(r1, r0, L0)
+    Cyy = (- structure_function_vk(r1, r0, L0)
+           - structure_function_vk(r1b, r0, L0)
            + structure_function_vk(r2, r0, L0)
            + structure_function_vk(r3, r0, L0)
            )
